@@ -7,13 +7,13 @@ import CopVerif.Model.GaussTransform
 
   ```
   gt consts                                            → ok <clipLo> <clipHi>
-  gt <op> <fitted 0|1> <dcorr> D l_1 … l_D <container>   op ∈ plan | pdf | cdf | logpdf
+  gt <op> <fitted 0|1> <singular 0|1> <dcorr> D l_1 … l_D <container>   op ∈ plan | pdf | cdf | logpdf
        container ::= frame K m_1 … m_K N <N·K cells, row-major>
                    | series K m_1 … m_K <K cells>
                    | arr1 K <K cells>
                    | arr2 N K <N·K cells>
      plan   → ok N W <N·W terms>           term ::= NORMPPF term | CLIP <lo> <hi> term | CDF j term | CELL <x>
-     pdf …  → ok N <N rterms>              rterm ::= MVNPDF <0|1> k <k terms> | MVNCDF k <k terms> | LOG rterm
+     pdf …  → ok N <N rterms>              rterm ::= MVNPDF <0|1> k <k terms> | MVNCDF <0|1> k <k terms> | LOG rterm
             → err <ErrorKind>
   gt mvn d <tau> <d·d entries of Σ> n <n·d scores>   → ok <logpdf_1> <pdf_1> … | err chol
   ```
@@ -30,7 +30,8 @@ def showTerm : Term Float → String
 def showRTerm : RTerm Float → String
   | .mvnpdf b row => "MVNPDF " ++ (if b then "1" else "0") ++ " " ++ toString row.length ++
       String.join (row.map fun t => " " ++ showTerm t)
-  | .mvncdf row => "MVNCDF " ++ toString row.length ++ String.join (row.map fun t => " " ++ showTerm t)
+  | .mvncdf b row => "MVNCDF " ++ (if b then "1" else "0") ++ " " ++ toString row.length ++
+      String.join (row.map fun t => " " ++ showTerm t)
   | .log t => "LOG " ++ showRTerm t
 
 /-- split a flat list into rows of width `k`. -/
@@ -65,7 +66,7 @@ def parseContainer (ws : List String) : Option (Container String Float) :=
     if xs.length = n * k then some (.arr2 (chunk k n xs)) else none
   | _ => none
 
-def runOp (op : String) (m : GModel String Float) (x : Container String Float) : String :=
+def runOp (op : String) (m : GModel String) (x : Container String Float) : String :=
   match op with
   | "plan" =>
     match transformToNormal m x with
@@ -104,7 +105,7 @@ def gaussTransform (ws : List String) : String :=
           | _, _ => "bad-op"
         | _, _, _ => "bad-op"
       | _ => "bad-op"
-  | op :: fitted :: dcorr :: d :: rest =>
+  | op :: fitted :: singular :: dcorr :: d :: rest =>
     match parseNat dcorr, parseNat d with
     | some dcorr, some d =>
       let cols := rest.take d
@@ -112,8 +113,8 @@ def gaussTransform (ws : List String) : String :=
       match parseContainer (rest.drop d) with
       | none => "bad-op"
       | some x =>
-        let m : GModel String Float :=
-          { fitted := fitted == "1", cols := cols, corr := List.replicate dcorr (List.replicate dcorr 0.0) }
+        let m : GModel String :=
+          { fitted := fitted == "1", cols := cols, corr := { dim := dcorr, singular := singular == "1" } }
         runOp op m x
     | _, _ => "bad-op"
   | _ => "bad-op"
